@@ -1,7 +1,7 @@
 package checks
 
 // C19 - concurrent use of the engine is free of data races on the data path: the Go race detector is the oracle.
-// The concurrent workloads of C04(b), C05(b), C08, C12 (and C17 when present) are run inside the -race binary with
+// The concurrent workloads of C04(b), C05(b), C08, C12, C17 and the goroutine variant of C13 are run inside the -race binary with
 // GORACE=halt_on_error=0 log_path=...; every report is parsed, fingerprinted by the innermost engine frames of its two
 // accesses (function names, no line numbers) and classified as in scope (data path) or out of scope (shutdown flags).
 
@@ -21,7 +21,7 @@ import (
 	"verifharness/internal/sqlx"
 )
 
-var c19Workloads = []string{"C12", "C04b", "C05b", "C08c", "C17c", "ddl"}
+var c19Workloads = []string{"C12", "C04b", "C05b", "C08c", "C17c", "C13g", "ddl"}
 
 func c19Reps(env *core.Env) int {
 	if env.Thorough() {
@@ -36,7 +36,7 @@ func init() {
 		Level:    "exploration",
 		NeedRace: true,
 		Rule: "case = one repetition of one concurrent workload executed inside the race-detector build of the harness+engine: ExecuteSQL clients with forced checkpoints and statistics scans (C12), multi-statement goroutine transactions with aborts (C04b/C05b), " +
-			"auto-commit DML with checkpoints in small pools = evictions (C08c), concurrent index inserters/deleters/scanners (C17c) and CREATE TABLE concurrent with DML (ddl); quick 3, thorough 20 repetitions each, GOMAXPROCS 4 and 16. " +
+			"auto-commit DML with checkpoints in small pools = evictions (C08c), concurrent index inserters/deleters/scanners (C17c), the buffer pool driven directly by 2-8 user goroutines incl. flushes and deallocations (C13g) and CREATE TABLE concurrent with DML (ddl); quick 3, thorough 20 repetitions each, GOMAXPROCS 4 and 16. " +
 			"Oracle: every 'WARNING: DATA RACE' block in the GORACE log is parsed; fingerprint = innermost frame inside github.com/ryogrid/SamehadaDB/lib of each of the two accesses (function names; line numbers dropped); " +
 			"in scope when an access is in storage/, recovery/, container/, catalog/, execution/, materialization/, types/, concurrency/checkpoint_manager.go, concurrency/statistics_updater.go or common/; the request manager's / background loops' shutdown flags are out of scope (listed in the evidence only). " +
 			"Non-trivial case = the workload executed statements concurrently (operations counter > 0); distinct by (workload, repetition). A run in which the detector saw nothing at all while a listed race finding is still open fails as vacuous",
@@ -74,13 +74,21 @@ func c19Run(env *core.Env, idx int) *core.CaseResult {
 		if c := core.Lookup("C17"); c != nil && c17ConcurrentCase != nil {
 			inner = c17ConcurrentCase(sub, rep)
 		}
+	case "C13g":
+		// the buffer pool driven directly by 2-8 user goroutines (fetch / write under a per-page harness lock / unpin / flush / deallocate)
+		for j := rep * 40; j < rep*40+400; j++ {
+			if cl, _, _ := c13Params(j); cl == "go" || cl == "go-flush" {
+				inner = c13Run(sub, j)
+				break
+			}
+		}
 	case "ddl":
 		inner = c19DDL(sub, rep)
 	}
 	res.Add("workload_runs_"+w, 1)
 	if inner != nil {
 		for k, v := range inner.Stats {
-			if strings.Contains(k, "operations") || k == "conc_ops" || strings.Contains(k, "statements") || strings.Contains(k, "transactions") || strings.Contains(k, "clients") {
+			if strings.Contains(k, "operations") || k == "conc_ops" || k == "go_ops" || strings.Contains(k, "statements") || strings.Contains(k, "transactions") || strings.Contains(k, "clients") {
 				res.Add(w+"_"+k, v)
 				res.Nontrivial = true
 			}
